@@ -208,6 +208,28 @@ CHECKS = {
             "ones) are not decided.",
             "custom ast rules: CFG order, sign analysis, argument-forwarding cross-check, monomial normal-form sibling comparison, units typing",
             "DESIGN.md section 4 C15"),
+    "C11": (True, "other",
+            "Sibling cross-check of each writer/reader pair - necessary conditions of a round trip that are visible in the code: "
+            "SWAN keyword vocabulary, NODATA/ZERO/FACTOR case split, inverse factor, constant-propagated time formats, unit "
+            "line; grid location order of flatten vs reshape (known finding); JSON date formats and containers; WW3 tables, "
+            "inverse rename, factors multiplying to one, 180-degree flip on both sides; Octopus energy<->density widths and "
+            "table layout; Funwave amplitude formula composed with its inverse, direction involution; netCDF packing on a deep "
+            "copy; chunk loops covering a trailing partial chunk; guard/action agreement in the shared stacking helper; "
+            "direction sorting as a gather by one permutation.",
+            "round-trip EQUALITY quantifies over data values and number formatting and is NOT decided: numeric resolution, "
+            "NaN/zero survival, gzip and off-by-one values inside the chunk loops are out of reach of a static argument.",
+            "sibling-implementation cross-check over ast with constant propagation (tables, formats, factors, axis order)",
+            "DESIGN.md section 4 C11"),
+    "C13": (True, "other",
+            "Only the clauses whose truth is in the shape of the code: constant-folded conversion factors (per radian -> per "
+            "degree, rho g for energy units) and the guards that select them, axis order of the WW3-station reshape, spreading "
+            "normalisation (shared with C15; NDBC constant term integrates to one), no scaling on the 1-D path, the exact "
+            "product efth(f) x cartwright(dir, dmf, dsprf) on the 2-D path, presence of the time sort, and SWAN's direction "
+            "sorting gathering labels and data by the same permutation.",
+            "parsing correctness (column order, header variants, timestamp parsing, multi-file concatenation) lives in runtime "
+            "file contents and is NOT decided; this is the thinnest of the claimed checks.",
+            "custom ast structural rules (constant folding, guard/branch pairing, exact-form checks) + shared spreading rules",
+            "DESIGN.md section 4 C13"),
 }
 
 NA_DEFAULT = "check under construction in this build round (see DESIGN.md section 8)"
